@@ -3,8 +3,8 @@ CONSTANTS
   MaxSess = 3
   T = 3
   Stateless = FALSE
-  MaxSlots = 1
-  MaxParked = 1
+  MaxSlots = 2
+  MaxParked = 2
 INVARIANTS MintOnlyOnCreate DeadStaysDead UserBound NoTimeoutDuringPost StatelessNoIds ClosedAndForgotten TimerDiscipline
 PROPERTIES MintStep AtMostOneSession DeadForever ResAlways
 VIEW MCView
